@@ -124,7 +124,9 @@ def build_and_audit():
     /repo (the model is hand-written), so it only changes when /verif changes."""
     with _lock():
         key = lean_hash()
-        cache_file = os.path.join(CACHE, key + ".json")
+        # the cache also depends on which theorems are audited
+        tkey = hashlib.sha256("\n".join(all_theorems()).encode()).hexdigest()[:12]
+        cache_file = os.path.join(CACHE, key + "-" + tkey + ".json")
         if os.path.exists(cache_file) and os.path.exists(DRIVER):
             with open(cache_file) as f:
                 return json.load(f)
@@ -415,11 +417,15 @@ def fingerprint(anchors):
     import inspect
 
     h = hashlib.sha256()
-    for mod, qual in anchors:
+    # the anchored functions, the whole modules they live in, and the instance classes every property's
+    # inputs are built with (a change there — a cache, a new helper — can break a property from upstream)
+    mods = sorted({mod for mod, _ in anchors} | {"preflibtools.instances.preflibinstance.ordinal",
+                                                "preflibtools.instances.preflibinstance.instance"})
+    for mod, qual in list(anchors) + [(m, "") for m in mods]:
         try:
             m = importlib.import_module(mod)
             obj = m
-            for part in qual.split("."):
+            for part in (qual.split(".") if qual else []):
                 obj = getattr(obj, part)
             obj = inspect.unwrap(obj)
             src = inspect.getsource(obj)
